@@ -49,7 +49,7 @@ def replay(r):
     start, end, n = r["start"], r["end"], r["n"]
     e_eff = end if end >= 0 else (L + 1 + end if r["fn"] == "shuffle" else L + end)
     fn = ersatz.shuffle if r["fn"] == "shuffle" else ersatz.dinucleotide_shuffle
-    for seed in ([r["seed"]] if r.get("seed") is not None else range(40)):
+    for seed in ([r["seed"], -1, -7] if r.get("seed") is not None else range(40)):
         if r.get("seed_kind") == "numpy":
             import numpy
             seed = numpy.int64(seed)
@@ -62,6 +62,12 @@ def replay(r):
             return True, "input modified"
         if not torch.equal(Y, Y2):
             return True, "two calls with seed %d differ" % seed
+        if r.get("seed") is not None and r["fn"] == "dinucleotide":
+            # numba's generator is process-global: an unseeded call continues wherever earlier draws left it
+            fn(X, start=start, end=end, n=n + 1, random_state=int(seed) + 1000)
+            Y3 = fn(X, start=start, end=end, n=n, random_state=seed)
+            if not torch.equal(Y, Y3):
+                return True, "seed %d: the result changes after an unrelated call (the generator is not seeded with random_state)" % seed
         if tuple(Y.shape) != (B, n, A, L):
             return True, "output shape %s" % (tuple(Y.shape),)
         got = C.real_chars(Y)
@@ -102,7 +108,8 @@ def worker(cfg):
         if cfg.get("rotations"):
             ctx.state["rng_rotations"] = True         # long region: each permutation draw is the identity or a rotation by one (solver-chosen)
         seed = core.SNpInt(z3.Int("seed")) if cfg.get("seed_kind") == "numpy" else core.Int("seed")
-        ctx.assume(seed >= 0)
+        # RandomState (shuffle) only accepts 0 <= seed < 2**32; the dinucleotide kernel seeds numba's generator, which takes any integer
+        ctx.assume(seed >= (cfg.get("min_seed", 0) if fn != "shuffle" else 0))
         if fn == "shuffle":
             B, L = cfg["B"], cfg["L"]
             xc = C.sym_chars(ctx, "x", (B, L), A)
@@ -136,6 +143,8 @@ def worker(cfg):
 
         def rp(m, **kw):
             d = dict(cfg, x=xs(m), start=core.model_value(m, start), end=core.model_value(m, end))
+            if m is not None and cfg.get("min_seed", 0) < 0:
+                d["seed"] = core.model_value(m, seed)
             d.update(kw)
             return d
         try:
@@ -237,6 +246,7 @@ def configs(tier):
     cf.append(dict(fn="shuffle", A=2, B=1, L=4, n=1, neg_end=True))
     cf.append(dict(fn="shuffle", A=3, B=1, L=3, n=1, seed_kind="numpy"))
     cf.append(dict(fn="dinucleotide", A=2, x=[[0, 1, 0, 0, 1, 1]], start=0, end=6, n=1, seed_kind="numpy"))
+    cf.append(dict(fn="dinucleotide", A=2, x=[[0, 1, 0, 0, 1, 1], [1, 1, 0, 1, 0, 0]], start=0, end=6, n=1, min_seed=-(2 ** 31)))      # any integer seed, also negative ones
 
     # dinucleotide: every sequence up to renaming
     for A, L in ([(2, 4), (3, 5), (2, 6), (4, 5), (3, 6), (2, 7)] if q else [(2, 4), (3, 5), (2, 6), (4, 5), (3, 6), (3, 7), (4, 6), (4, 7), (2, 8), (3, 8)]):
@@ -244,6 +254,15 @@ def configs(tier):
             if len(set(x)) < 2 and L > 4:
                 continue
             cf.append(dict(fn="dinucleotide", A=A, x=[x], start=0, end=L, n=1))
+    # the renaming symmetry is a property of the code, not a given: sequences that skip lower-numbered characters
+    # (renamed upwards, and with the character order reversed)
+    for A, L in ([(4, 5), (3, 5)] if q else [(4, 5), (3, 5), (4, 6), (3, 6)]):
+        for x in canonical_sequences(L, A):
+            k = len(set(x))
+            if k < 2 or k >= A:
+                continue
+            cf.append(dict(fn="dinucleotide", A=A, x=[[c + (A - k) for c in x]], start=0, end=L, n=1))
+            cf.append(dict(fn="dinucleotide", A=A, x=[[A - 1 - c for c in x]], start=0, end=L, n=1))
     for x, s, e in [([0, 1, 0, 1, 1, 0], 1, 5), ([0, 1, 2, 0, 1, 2], 0, -1), ([1, 0, 0, 1, 0, 1], 2, 6), ([0, 0, 1, 1, 0, 1], 0, 4)]:
         cf.append(dict(fn="dinucleotide", A=3, x=[x], start=s, end=e, n=1))
     cf.append(dict(fn="dinucleotide", A=2, x=[[0, 1, 0, 0, 1], [1, 1, 0, 1, 0]], start=0, end=5, n=1))
@@ -261,7 +280,7 @@ def main(tier, seed):
     rep.functions = [ld.func_info("ersatz", f) for f in ("shuffle", "dinucleotide_shuffle", "_dinucleotide_shuffle", "_fast_shuffle")]
     cf = configs(tier)
     rep.bounds = {"shuffle": "symbolic characters and region, %s" % sorted({(c["A"], c["B"], c["L"], c["n"]) for c in cf if c["fn"] == "shuffle"}),
-                  "dinucleotide": "every sequence up to alphabet renaming for (A, L) in %s; all permutation outcomes of the walk symbolic" % sorted({(c["A"], len(c["x"][0])) for c in cf if c["fn"] == "dinucleotide"}),
+                  "dinucleotide": "every sequence up to alphabet renaming for (A, L) in %s, plus upward / reversed renamings of the sequences that do not use every character for L = 5 (6); all permutation outcomes of the walk symbolic" % sorted({(c["A"], len(c["x"][0])) for c in cf if c["fn"] == "dinucleotide"}),
                   "sequences": sum(1 for c in cf if c["fn"] == "dinucleotide"),
                   "long region": "one sequence of %d positions (A=3) with each permutation draw restricted to identity / rotation by one: position bookkeeping in fixed-width integer arrays" % max(len(c["x"][0]) for c in cf if c.get("rotations"))}
     rep.assumptions = ["RNG model: RandomState.shuffle / numpy.random.permutation return an arbitrary permutation, a function of (seed, call index) only; bit-level streams outside the claim",
